@@ -46,9 +46,11 @@ pub fn gen(r: &mut Rng) -> Value {
             json!({"kind": "random", "text": s})
         }
         1 | 2 => {
-            let bad = ["x \"abc", "x \"a\\q\"", "x a\\", "\"lbl", ":\"l x", "o\\ut = x", "out = \"cmd\"", "!", "!nope x", "x \\$a", "a\\b = x"];
+            let bad = ["x \"abc", "x \"a\\q\"", "x a\\", "\"lbl", ":\"l x", "o\\ut = x", "out = \"cmd\"", "!", "!nope x", "x \\$a", "a\\b = x", "!  ", "!Print x", "x \"a\\", ":l \"o = x"];
             let n_before = r.below(3);
-            json!({"kind": "malformed", "bad": r.pick(&bad), "before": n_before})
+            let lead = ["", "", " ", "\t", "   ", " \t "];
+            let eol = ["\n", "\n", "\r\n"];
+            json!({"kind": "malformed", "bad": r.pick(&bad), "before": n_before, "lead": r.pick(&lead), "trail": r.pick(&lead), "eol": r.pick(&eol)})
         }
         _ => {
             let n = 1 + r.below(3);
@@ -147,12 +149,16 @@ pub fn run(input: &Value) -> Option<Value> {
         "malformed" => {
             let bad = input["bad"].as_str()?;
             let before = input["before"].as_u64()? as usize;
+            let eol = input["eol"].as_str().unwrap_or("\n");
             let mut text = String::new();
             for k in 0..before {
-                text.push_str(&format!("ok{} = set {}\n", k, k));
+                text.push_str(&format!("ok{} = set {}{}", k, k, eol));
             }
+            text.push_str(input["lead"].as_str().unwrap_or(""));
             text.push_str(bad);
-            text.push_str("\nafter = set 1\n");
+            text.push_str(input["trail"].as_str().unwrap_or(""));
+            text.push_str(eol);
+            text.push_str("after = set 1\n");
             let want_line = before + 1;
             let kind = |e: &ScriptError| -> (&'static str, Option<usize>) {
                 match e {
@@ -167,10 +173,10 @@ pub fn run(input: &Value) -> Option<Value> {
             };
             let expect = match bad {
                 "x \"abc" => "MissingEndQuotes",
-                "x \"a\\q\"" | "x a\\" | "x \\$a" => "ControlWithoutValidValue",
-                "\"lbl" | ":\"l x" | "out = \"cmd\"" => "InvalidQuotesLocation",
+                "x \"a\\q\"" | "x a\\" | "x \\$a" | "x \"a\\" => "ControlWithoutValidValue",
+                "\"lbl" | ":\"l x" | "out = \"cmd\"" | ":l \"o = x" => "InvalidQuotesLocation",
                 "o\\ut = x" | "a\\b = x" => "InvalidControlLocation",
-                "!" => "PreProcessNoCommandFound",
+                "!" | "!  " => "PreProcessNoCommandFound",
                 _ => "UnknownPreProcessorCommand",
             };
             match parser::parse_text(&text) {
